@@ -1,4 +1,134 @@
-(* C14 property theorems (filled in below; see coq/C14/ParProofs.v) *)
-From V Require Import Base.Field C14.Par.
-Theorem C14_log2_floor_one : log2_floor 1 = 0.
-Proof. vm_compute; reflexivity. Qed.
+(* C14 -- property theorems only: pinned statements, each closed by `exact`.
+   Models (coq/C14/Par.v) take the number of rayon threads [nt] as an explicit parameter and
+   mirror the chunk arithmetic of the `parallel` code paths; every theorem holds for EVERY nt
+   (non powers of two, larger than the input, even nt <= 0) and every input.
+   F : Fops T is an arbitrary field dictionary; `is_field F` (field_theory of its operations,
+   Leibniz equality) and `eqb_correct F` are explicit premises (definitions in C07/DomainProofs.v).
+   rayon's scheduling is not modelled (closures are pure functions of disjoint chunks): the
+   property is partial on its `schedules` quantifier -- see props/C14/NOTES.md. *)
+From V Require Import Base.Field C07.Dft C07.Radix2 C07.MixedRadix C07.Domain C07.DomainProofs
+  C14.Par C14.ParProofs C14.ParFftProofs.
+
+(* parallel distribute_powers_and_mul_by_const (chunks of max(len/nt, 1024), chunk i starting at
+   c * g^(i*chunk)) = the serial loop *)
+Theorem C14_distribute_powers_par_equals_serial : forall T (F : Fops T), is_field F ->
+  forall nt coeffs g c,
+  par_distribute_powers_and_mul_by_const F nt coeffs g c = distribute_powers_and_mul_by_const F coeffs g c.
+Proof. exact (@distribute_powers_par_equals_serial). Qed.
+
+(* chunked Horner (chunks of max(len/nt, 16), partial value scaled by x^(i*chunk), summed) = plain Horner *)
+Theorem C14_horner_par_equals_serial : forall T (F : Fops T), is_field F ->
+  forall nt coeffs x, par_internal_evaluate F nt coeffs x = horner F coeffs x.
+Proof. exact (@horner_par_equals_serial). Qed.
+(* ... which is the value of the polynomial (C07's specification-level `eval`) *)
+Theorem C14_horner_is_eval : forall T (F : Fops T), is_field F ->
+  forall c x, horner F c x = eval F c x.
+Proof. exact (@horner_eval). Qed.
+(* DensePolynomial::evaluate including its zero-polynomial / zero-point shortcuts *)
+Theorem C14_evaluate_par_equals_serial : forall T (F : Fops T), is_field F ->
+  forall nt coeffs x, par_evaluate F nt coeffs x = serial_evaluate F coeffs x.
+Proof. exact (@evaluate_par_equals_serial). Qed.
+
+(* batch_inversion_and_mul on chunks of max(len/nt, 1), independent Montgomery trick per chunk:
+   element-wise coeff / v_i, zero entries left untouched; equal to the one-chunk (serial) run *)
+Theorem C14_batch_inv_par_spec : forall T (F : Fops T), is_field F -> eqb_correct F ->
+  forall nt v coeff,
+  par_batch_inversion_and_mul F nt v coeff =
+  map (fun f => if fis0 F f then f else fmul F coeff (finv F f)) v.
+Proof. exact (@batch_inv_par_spec). Qed.
+Theorem C14_batch_inv_par_equals_serial : forall T (F : Fops T), is_field F -> eqb_correct F ->
+  forall nt v coeff,
+  par_batch_inversion_and_mul F nt v coeff = serial_batch_inversion_and_mul F v coeff.
+Proof. exact (@batch_inv_par_equals_serial). Qed.
+
+(* the recursive roots-of-unity table (log_powers split, rayon::join, chunk-wise recombination)
+   = [1, g, g^2, ..., g^(size/2 - 1)] = the serial compute_powers_serial(size/2, root) *)
+Theorem C14_roots_recursive_spec : forall T (F : Fops T), is_field F ->
+  forall log_size root,
+  par_roots_of_unity F log_size root = powers F (Nat.div (2 ^ log_size) 2) root (f1 F).
+Proof. exact (@roots_recursive_spec). Qed.
+
+(* Radix2EvaluationDomain::fft_in_place / ifft_in_place of the parallel build (parallel
+   distribute_powers, parallel roots table) = the serial model of C07, which C07 proves to be the DFT *)
+Theorem C14_par_radix2_fft_equals_serial : forall T (F : Fops T), is_field F ->
+  forall nt d coeffs, par_radix2_fft F nt d coeffs = radix2_fft F d coeffs.
+Proof. exact (@par_radix2_fft_equals_serial). Qed.
+Theorem C14_par_radix2_ifft_equals_serial : forall T (F : Fops T), is_field F ->
+  forall nt d evals, par_radix2_ifft F nt d evals = radix2_ifft F d evals.
+Proof. exact (@par_radix2_ifft_equals_serial). Qed.
+
+(* parallel_fft: split into ntn = 2^log_cpus cosets, build the k-th coset polynomial with the
+   running twiddle (omega_k, omega_step; the accumulator returns to omega^(k(i+1)) because
+   omega^m = 1), sub-FFT with omega^ntn, re-interleave tmp[i mod ntn][i / ntn]: computes the DFT
+   of the whole array whenever the sub-FFT computes the DFT of a coset-sized array *)
+Theorem C14_parallel_fft_equals_dft : forall T (F : Fops T), is_field F ->
+  forall (sfft : list T -> T -> Z -> option (list T)) (ntn csn : nat) a omega log_n log_cpus,
+  (0 <= log_cpus <= log_n)%Z -> (2 ^ log_cpus)%Z = Z.of_nat ntn -> (1 <= csn)%nat ->
+  length a = (ntn * csn)%nat ->
+  pown F omega (ntn * csn) = f1 F ->
+  (forall x, length x = csn ->
+     sfft x (pown F omega ntn) (k_adicity 2 (Z.of_nat csn)) = Some (dft F csn (pown F omega ntn) x)) ->
+  parallel_fft F sfft a omega log_n log_cpus = Some (dft F (ntn * csn) omega a).
+Proof. exact (@parallel_fft_equals_dft). Qed.
+
+(* best_fft (switch on floor(log2 nt)) returns what the serial transform returns, for every nt *)
+Theorem C14_best_fft_equals_serial : forall T (F : Fops T), is_field F ->
+  forall (sfft : list T -> T -> Z -> option (list T)) (nt : Z) (csn : nat) a omega log_n,
+  let ntn := Z.to_nat (2 ^ log2_floor nt) in
+  (1 <= csn)%nat -> length a = (ntn * csn)%nat ->
+  pown F omega (ntn * csn) = f1 F ->
+  sfft a omega log_n = Some (dft F (ntn * csn) omega a) ->
+  (forall x, length x = csn ->
+     sfft x (pown F omega ntn) (k_adicity 2 (Z.of_nat csn)) = Some (dft F csn (pown F omega ntn) x)) ->
+  best_fft F nt sfft a omega log_n = sfft a omega log_n.
+Proof. exact (@best_fft_equals_serial). Qed.
+
+(* MixedRadixEvaluationDomain::fft_in_place / ifft_in_place, parallel = serial.
+   PARTIAL: conditional on `mixed_serial_is_dft` -- C07's serial mixed-radix model computing the
+   DFT on the array and on a coset-sized array -- which C07 does not prove (its mixed-radix part
+   is correspondence-only).  FULL STATEMENT wanted:
+     forall nt q d coeffs, <d built by mixed_new> -> par_mixed_fft F nt q d coeffs = mixed_fft F q d coeffs. *)
+Theorem C14_par_mixed_fft_equals_serial_partial : forall T (F : Fops T), is_field F ->
+  forall nt q d coeffs csn,
+  mixed_serial_is_dft F q nt
+    (resize F (Z.to_nat (d_size d))
+       (if is_one F (d_offset d) then coeffs else distribute_powers F coeffs (d_offset d)))
+    (d_gen d) (d_log d) csn ->
+  par_mixed_fft F nt q d coeffs = mixed_fft F q d coeffs.
+Proof. exact (@par_mixed_fft_equals_serial). Qed.
+Theorem C14_par_mixed_ifft_equals_serial_partial : forall T (F : Fops T), is_field F ->
+  forall nt q d evals csn,
+  mixed_serial_is_dft F q nt (resize F (Z.to_nat (d_size d)) evals) (d_gen_inv d) (d_log d) csn ->
+  par_mixed_ifft F nt q d evals = mixed_ifft F q d evals.
+Proof. exact (@par_mixed_ifft_equals_serial). Qed.
+
+(* ---------- the hypotheses are satisfiable / the conclusions on concrete inputs (F_17, F_97) ---------- *)
+(* thread counts that are not powers of two and exceed the input length *)
+Example C14_example_horner :
+  par_internal_evaluate (ZpOps 97) 3 (map Z.of_nat (seq 1 53)) 5 = horner (ZpOps 97) (map Z.of_nat (seq 1 53)) 5
+  /\ par_internal_evaluate (ZpOps 97) 64 [1;2;3] 5 = eval (ZpOps 97) [1;2;3] 5.
+Proof. vm_compute. split; reflexivity. Qed.
+Example C14_example_batch_inv :
+  par_batch_inversion_and_mul (ZpOps 97) 3 [5;0;7;11;0;13;96] 2 = [78;0;28;9;0;30;95]
+  /\ par_batch_inversion_and_mul (ZpOps 97) 64 [5;0;7] 2 = serial_batch_inversion_and_mul (ZpOps 97) [5;0;7] 2.
+Proof. vm_compute. split; reflexivity. Qed.
+Example C14_example_roots :
+  par_roots_of_unity (ZpOps 12289) 10 1945 = powers (ZpOps 12289) 512 1945 1.
+Proof. vm_compute. reflexivity. Qed.
+(* parallel_fft premises in F_17: omega = 2 has order 8 = 2 cosets * 4; the naive sub-FFT satisfies
+   the sub-FFT premise by definition; 3 threads -> floor(log2 3) = 1 -> 2 cosets *)
+Example C14_example_parallel_fft :
+  pown (ZpOps 17) 2 (2 * 4) = f1 (ZpOps 17)
+  /\ parallel_fft (ZpOps 17) (fun x w _ => Some (dft (ZpOps 17) (length x) w x)) [1;2;3;4;5;6;7;8] 2 3 1
+     = Some (dft (ZpOps 17) 8 2 [1;2;3;4;5;6;7;8])
+  /\ best_fft (ZpOps 17) 3 (fun x w _ => Some (dft (ZpOps 17) (length x) w x)) [1;2;3;4;5;6;7;8] 2 3
+     = Some (dft (ZpOps 17) 8 2 [1;2;3;4;5;6;7;8]).
+Proof. vm_compute. repeat split; reflexivity. Qed.
+(* the mixed-radix premise holds on a concrete domain: F_97 (q = 3), size 12 = 3 * 2^2, generator 64^... *)
+Example C14_example_mixed :
+  let F := ZpOps 97 in
+  let w := pown F 5 8 in                      (* 5 generates F_97^*, so w has order 12 *)
+  serial_mixed_radix_fft F 3 [1;2;3;4;5;6;7;8;9;10;11;12] w 2 = Some (dft F 12 w [1;2;3;4;5;6;7;8;9;10;11;12])
+  /\ best_fft F 5 (serial_mixed_radix_fft F 3) [1;2;3;4;5;6;7;8;9;10;11;12] w 2
+     = serial_mixed_radix_fft F 3 [1;2;3;4;5;6;7;8;9;10;11;12] w 2.
+Proof. vm_compute. split; reflexivity. Qed.
